@@ -121,6 +121,17 @@ def run(ck, models, tier):
                       "bytes, then the second guard writes back the *first patch* it had saved — after drop the function still jumps to a "
                       "trampoline that has been unmapped."), wh)
             # field order: nothing to check here (C04 R4.5 covers lock-last)
+        # ---------------- R2.4 guards stay in the container until teardown: outside the injector's destructor it is append-only
+        if inj:
+            dfn_ = [p_ for adt_, p_ in tm.drop_impls() if adt_ == inj]
+            muts = scans.container_mutations(tm.facts, inj, idx, exclude_fns=tuple(dfn_))
+            for fn, what, line in muts:
+                ck.ob("R2.4", "container-mutated-outside-teardown/%s/%s" % (short(fn), short(what)), tm.target, False,
+                      "%s applies %s to %s.%s: removing, replacing or reordering stored guards before the injector is dropped restores a "
+                      "function out of order (an earlier guard writes its saved bytes over a later patch) or never" % (fn, what, short(inj), field),
+                      "%s:%d" % (tm.facts.body(fn)["span"]["file"], line))
+            ck.ob("R2.4", "container-append-only-until-teardown", tm.target, not muts,
+                  "%d non-append use(s) of `&mut %s.%s` outside its destructor" % (len(muts), short(inj), field))
         # ---------------- R2.4 who-may-call = {} for forgetting primitives
         sites = scans.forget_sites(tm.facts)
         for fn, name, t in sites:
@@ -129,3 +140,11 @@ def run(ck, models, tier):
                   "%s:%d" % (t["span"]["file"], t["span"]["line"]) if t.get("span") else None)
         ck.ob("R2.4", "no-forget-sites", tm.target, not sites, "%d call sites of mem::forget / ManuallyDrop / leak / into_raw in the crate" % len(sites))
     scans.control(ck, ck.ws, "R2.4", "forget-or-ManuallyDrop-call", scans.forget_sites, 2)
+
+    def ctl_container(f):
+        for p_, a in f.adts.items():
+            for i, fl in enumerate(a["variants"][0]["fields"]):
+                if fl["ty"].get("path") == "std::vec::Vec":
+                    return scans.container_mutations(f, p_, i)
+        return []
+    scans.control(ck, ck.ws, "R2.4", "container-mutation-other-than-append", ctl_container)
